@@ -19,6 +19,7 @@ var kinds = map[string]kind{
 	"prod": {genProd, runProd},
 	"idem": {genIdem, runIdem},
 	"cons": {genCons, runCons},
+	"grp":  {genGrp, runGrp},
 }
 
 func TestMain(m *testing.M) {
